@@ -23,6 +23,10 @@ from . import common
 from .common import VERIF, OUT_DIR, EVIDENCE_DIR
 
 PROPS = ["C%02d" % i for i in range(1, 21)]
+# generated cases of the quick tier = the per-property base number x QUICK_MULT; x SOURCE_MULT more when the source of
+# a function the property is anchored in differs from the pinned tree (harness/fingerprint.py): directed escalation
+QUICK_MULT = int(os.environ.get("VERIF_QUICK_MULT", "3"))
+SOURCE_MULT = int(os.environ.get("VERIF_SOURCE_MULT", "3"))
 
 
 class Ctx:
@@ -44,11 +48,12 @@ class Ctx:
         self.known_hits = {}
         self.notes = []
         self.traces_validated = 0
+        self.source_changed = []          # anchored functions whose source differs from the pinned tree
 
     # budget: number of generated cases
     def budget(self, quick, thorough):
-        n = quick if self.tier == "quick" else thorough
-        return n * (4 if self.escalate else 1)
+        n = quick * QUICK_MULT if self.tier == "quick" else thorough
+        return int(n * (4 if self.escalate else 1) * (SOURCE_MULT if self.source_changed else 1))
 
     def count(self, key, n=1):
         self.dist[key] = self.dist.get(key, 0) + n
@@ -189,6 +194,10 @@ def main(argv=None):
 
     # ---- 2. correspondence + oracle
     ctx = Ctx(prop, tier, seed, bool(broken), ok_drv)
+    from . import fingerprint
+    ctx.source_changed = fingerprint.changed_since_pinned(prop)
+    if ctx.source_changed:
+        print("source changed since the model was pinned (search escalated, not a verdict): %s" % ", ".join(ctx.source_changed[:12]))
     if not ok_drv:
         broken.append({"obligation": "lake build luqumdrv (model driver)",
                        "errors": [l for l in drv_log.split("\n") if l.startswith("error")][:20]})
@@ -202,6 +211,7 @@ def main(argv=None):
     if ctx.disagreements and not ctx.escalate and not ctx.failures:
         # correspondence broke: search harder with the oracle
         ctx2 = Ctx(prop, tier, seed + 1000003, True, ok_drv)
+        ctx2.source_changed = ctx.source_changed
         mod.run(ctx2)
         ctx.failures += ctx2.failures
         ctx.evaluations += ctx2.evaluations
@@ -262,6 +272,7 @@ def main(argv=None):
         "oracle_failures_known": {k: len(v) for k, v in listed.items()},
         "distribution": dict(sorted(ctx.dist.items())),
         "broken": broken,
+        "source_changed_since_pinned": ctx.source_changed,
         "notes": ctx.notes,
     }
     evidence = {
